@@ -136,12 +136,12 @@ def plan():
             covers = ["collected exactly at the grace boundary"]
         return H(f"c06_{format(mask, '04b')}_{OPS[op]}{k}_r{rsid}", f"c06_model({mask}, {op}, {k}, {rsid})", unwind=5, tiers=tiers, covers=covers, rules=R_C06, cap=4,
                  funcs=["state.rs::NodeState::{set,set_with_ttl,delete,delete_after_ttl,gc_keys_marked_for_deletion,get,get_versioned,contains_key,key_values,key_values_including_deleted,num_key_values,iter_prefix}", "types.rs::VersionedValue::is_deleted"],
-                 cuts=[CUT_LISTENER], timeout=1500, mem=10,
+                 cuts=[CUT_LISTENER], timeout=1800, mem=12 if rsid >= 1 else 8,
                  bounds={"keys": "alphabet {'', 'a', 'ab', 'b'}, presence mask " + format(mask, "04b"), "values": "{'', 'x', 'y'} symbolic", "versions": "1..=1000 symbolic, distinct",
                          "statuses": "symbolic", "clock": "symbolic instants, grace period symbolic (ns resolution)", "operation": f"{OPS[op]} on key index {k} (one step from an arbitrary well-formed state)", "reads": RS[rsid], "map_capacity": 4},
                  desc="one local operation from an arbitrary state, all reads of the read set compared with the reference map")
     q = [(0b0110, 0, 1, 0), (0b0110, 0, 1, 1), (0b0111, 1, 2, 0), (0b0011, 2, 1, 0), (0b0011, 2, 2, 0), (0b0110, 3, 1, 0), (0b0111, 4, 0, 0), (0b0110, 4, 0, 1),
-         (0b0111, 4, 0, 3), (0b1110, 2, 1, 3), (0b0111, 0, 0, 2), (0b1011, 1, 3, 5)]
+         (0b0110, 4, 0, 3), (0b0110, 2, 1, 3), (0b0011, 0, 0, 2), (0b1010, 1, 3, 5), (0b0101, 1, 2, 0)]
     P["C06"] = [c06(m, op, k, r, ("quick", "thorough")) for (m, op, k, r) in q]
     seen = set(q)
     for m in (0b0000, 0b0110, 0b0111, 0b1011, 0b1110):
@@ -162,7 +162,7 @@ def plan():
         return fdh(f"c10_hist_{cfg}_{w}_{n}", f"c10_history({cfg}, {w}, {n})", cov, tiers, "exact short heartbeat history through the real report path, then silence",
                    {"config": CFG[cfg], "window": w, "arrivals": n, "gaps": "0..3 x max_interval, symbolic whole seconds", "silence": "symbolic"})
     def steady(cfg, w, n, tiers):
-        return fdh(f"c11_steady_{cfg}_{w}_{n}", f"c11_steady({cfg}, {w}, {n})", ["dead verdict reachable"] if cfg in (1, 4) and n >= 2 else [], tiers, "steady heartbeats with gaps in [a,b] stay within the threshold",
+        return fdh(f"c11_steady_{cfg}_{w}_{n}", f"c11_steady({cfg}, {w}, {n})", ["dead verdict reachable"] if cfg == 1 and n >= 2 else [], tiers, "steady heartbeats with gaps in [a,b] stay within the threshold",
                    {"config": CFG[cfg], "window": w, "arrivals": n, "a,b": "symbolic, 1 s <= a <= b <= max_interval"})
     def absw(cfg, compl, tiers):
         return fdh(f"{'c10' if compl else 'c11'}_abs_{cfg}", f"window_abstract({cfg}, 1000, {str(compl).lower()})", ["alive verdict reachable"] if compl else ["dead verdict reachable"], tiers,
